@@ -10,7 +10,8 @@ Inductive case :=
 | CServe (hidden : bool) (unprocessed : bytes)            (* FilesService::call on the fixed tree *)
 | CRange (hdr : bytes) (size : N)                         (* HttpRange::parse(hdr, size) *)
 | CResp (size : N) (range : option bytes) (im inm ius ims : N)   (* NamedFile::into_response + body *)
-| CTrunc (size actual : N) (range : option bytes).        (* file truncated to [actual] after open *)
+| CTrunc (size actual : N) (range : option bytes)         (* file truncated to [actual] after open *)
+| CStd (base p : bytes).                                  (* std::path: components(p), base.join(p) *)
 
 Definition err_code (e : seg_err) : N :=
   match e with
@@ -45,6 +46,13 @@ Definition cond_of (im inm ius ims : N) : cond :=
          ((inm =? 0) || (inm =? 3))
          (negb (inm =? 0))
          (if ims =? 0 then None else Some (negb (ims =? 1))).
+
+Definition VComp (c : component) : V :=
+  match c with
+  | CRoot => VT "root" [] | CCur => VT "cur" [] | CParent => VT "parent" []
+  | CNormal s => VBytes s
+  end.
+Definition VComps (p : bytes) : V := VL (map VComp (components p)).
 
 Definition VCr (c : crange) : V :=
   match c with
@@ -94,7 +102,10 @@ Definition run_C16 (c : case) : V :=
       match pp hidden s with
       | Panic => VT "panic" []
       | Val (PErr e) => VT "err" [VN (err_code e)]
-      | Val (POk segs) => VT "ok" [VBytes (render segs); VL (map VBytes segs)]
+      | Val (POk segs) =>
+          let j1 := join (hx "2f722f6f6f74") (render segs) in          (* "/r/oot" *)
+          let j2 := join (hx "722f2e2f6f6f742f") (render segs) in      (* "r/./oot/" *)
+          VT "ok" [VBytes (render segs); VL (map VBytes segs); VBytes j1; VComps j1; VBytes j2; VComps j2]
       end
   | CServe hidden u =>
       match pp hidden u with
@@ -115,4 +126,5 @@ Definition run_C16 (c : case) : V :=
       VResp size (into_response true size range (cond_of im inm ius ims))
   | CTrunc size actual range =>
       VResp actual (into_response true size range (cond_of 0 0 0 0))
+  | CStd base p => VT "std" [VComps p; VBytes (join base p); VComps (join base p)]
   end.
